@@ -33,6 +33,7 @@ property theorems.
 -/
 import LinVerif.Lemmas.C05Live
 import LinVerif.Lemmas.C05Meta
+import LinVerif.Lemmas.C05MetaBridge
 import LinVerif.Generated.C05
 import LinVerif.Generated.C05Meta
 
@@ -824,6 +825,24 @@ example :
        [.step 3, .step 3, .step 3, .step 3, .step 3, .step 3])).map
       (fun σ => (σ.rets, σ.memApp, σ.memAck, σ.diskApp, σ.diskAck)) = some ([2, 1, 0], 2, 2, 2, 2) := by
   decide
+
+/-- the thread programs refine the sequential queue model: one caller running Put / SetAppendedSeq /
+SetAcknowledgedSeq alone to its return leaves exactly the four sequence words (memory and meta page)
+that `put` / `setAppended` / `ack` of Model/Queue.lean leave, a Put hands out the sequence `put`
+answers, and `crash` reads back what `openQ` reads back -/
+theorem meta_threads_refine_sequential (st : St) :
+    (∀ m : Msg, m.len ≤ dataPageSize →
+      (mrun currentProgs (MSt.ofSt st) (alone .put 0 5)).map (fun σ => (σ.words, σ.rets, σ.holder)) =
+        some (wordsOf (put st m).1, [st.q.appended + 1], none) ∧ (put st m).2 = .ok (st.q.appended + 1)) ∧
+    (∀ s : Int,
+      (mrun currentProgs (MSt.ofSt st) (alone .reset s 7)).map (fun σ => (σ.words, σ.rets, σ.holder)) =
+        some (wordsOf (setAppended st s), [], none)) ∧
+    (∀ s : Int,
+      (mrun currentProgs (MSt.ofSt st)
+          (alone .ack s (if s > st.q.acked ∧ s ≤ st.q.appended then 6 else 3))).map
+          (fun σ => (σ.words, σ.rets, σ.holder)) = some (wordsOf (ack st s), [], none)) ∧
+    (st.mem.hasMeta = true → (crash currentProgs (MSt.ofSt st)).words = wordsOf (openQ st.mem)) :=
+  ⟨fun m hm => ⟨put_alone st m hm, (put_words st m hm).2⟩, reset_alone st, ack_alone st, crash_is_openQ st⟩
 
 end MetaWriters
 
